@@ -347,6 +347,15 @@ func runC14(c C14Case) *Result {
 				}
 			}
 		}
+		// nothing held yet (a nil or an empty target list): everything B needs is missing
+		{
+			needB, _ := v.ProofPositions(pB.Targets)
+			for _, none := range [][]uint64{nil, {}} {
+				if g := u.GetMissingPositions(v.N, none, cloneU64(pB.Targets)); !eqU64(g, needB) && !(len(g) == 0 && len(needB) == 0) {
+					return res.failf("GetMissingPositions(N=%d, nothing held (nil=%v), desired %v) = %v, the proof positions of the desired targets are %v", v.N, none == nil, pB.Targets, g, needB)
+				}
+			}
+		}
 		got := u.GetMissingPositions(v.N, cloneU64(pA.Targets), cloneU64(pB.Targets))
 		if !eqU64(got, want) {
 			return res.failf("GetMissingPositions(N=%d, have targets %v, desired %v) = %v, reference %v", v.N, pA.Targets, pB.Targets, got, want)
